@@ -13,7 +13,7 @@ LEVEL = "model_checking"
 TECHNIQUE = "exhaustive enumeration of (status byte x sense x transport x call path x raw flag) at depth 1 and of all status/command histories up to a depth bound on real device objects over stand-in bindings, judged by a status->outcome reference model"
 RULE = ("depth 1: all 256 status bytes x {SG_IO, iSCSI} x {device.execute, SCSI.execute} x raw-sense {off,on} x (READ(10) x 9 sense buffers (incl. fixed-format sense shorter than the buffer it arrives in: ADDITIONAL SENSE LENGTH 6 / 10 / 16 in 18 / 32 / 252 bytes) + 7 other commands incl. ATA PASS-THROUGH with/without CK_COND), and all 256 "
         "status bytes (over iSCSI also 12 status values beyond one byte incl. libiscsi's REDIRECT / CANCELLED / ERROR / TIMEOUT pseudo-statuses) x both transports x each of the 38 facade methods on every command set offering it x 2 sense buffers, and CHECK CONDITION x 6 sense keys x 6 additional sense codes (thorough: 16 x 12) x fixed / descriptor format through every facade method; an asynchronous KeyboardInterrupt injected at every source line the library executes during 9 facade calls (incl. both ATA PASS-THROUGH forms and a re-attach), on both transports: passed on as it is, and the next GOOD / CHECK CONDITION on the same objects behave as ever; the same command inside `with device:` / `with SCSI(device):` blocks x 8 statuses x 6 values handed back by the binding's disconnect (the error must leave the block); histories: all "
-        "sequences up to length L (3 quick, 4 thorough; steps may also be a transport I/O error, ENODEV, a re-plug with ENODEV, a KeyboardInterrupt arriving inside the binding - passed on as it is -, or the facade re-pointed by call to another device whose INQUIRY is answered GOOD / CHECK CONDITION / BUSY) over {GOOD, CHECK CONDITION, BUSY, RESERVATION CONFLICT, 7Fh} x {TEST UNIT READY, "
+        "sequences up to length L (3 quick, 4 thorough; steps may also be a transport I/O error, ENODEV, a re-plug with ENODEV, a transport time-out (no status from the target: SG_IO status byte 0 with a host status, reported by the binding as an error carrying both), a KeyboardInterrupt arriving inside the binding - passed on as it is -, or the facade re-pointed by call to another device whose INQUIRY is answered GOOD / CHECK CONDITION / BUSY) over {GOOD, CHECK CONDITION, BUSY, RESERVATION CONFLICT, 7Fh} x {TEST UNIT READY, "
         "READ(10), INQUIRY} on one device per transport, every step judged and every GOOD step's result compared with the target, once with a fresh facade call per step and once with one command object per kind submitted again at every step (retry loop); each CHECK CONDITION step carries its own distinct sense data; later steps also range over ATA PASS-THROUGH(16) facade calls (GOOD / CHECK CONDITION / transport I/O error), a refused ATA call (no block size) and transport errors during TEST UNIT READY (EIO, ENODEV, ENODEV while the node is being replaced). "
         "states = distinct canonical device/facade snapshots reached, transitions = commands executed in histories. Non-trivial = status "
         "other than GOOD somewhere in the execution.")
@@ -372,6 +372,18 @@ def run_case(case, obs=None):
                     if obs is not None:
                         obs.append(snapshot(rig.dev, s))
                     continue
+                if stname == "HOSTERR":
+                    # the command times out on the transport: no status from the target (SG_IO: status byte 0 with a host status; the
+                    # binding reports it as an error) - the call does not return normally
+                    rig.target.script.append(("HOSTERR", None))
+                    fn = {"tur": s.testunitready, "read10": lambda: s.read10(1, 1), "ata": lambda: s.atapassthrough16(4, 2, 1, 1, 0, 0, 0, 1, 0, 0xEC, ck_cond=1)}[ck]
+                    oc = attempt(fn)
+                    if oc[0] != "exc":
+                        out.append(("%s/history/transport_timeout_returns_normally" % tr, "step %d of %r: the command timed out on the transport (no status from the target), the call returned normally" % (i, steps)))
+                    del rig.target.script[:]
+                    if obs is not None:
+                        obs.append(snapshot(rig.dev, s))
+                    continue
                 if stname in ("ERR", "ENODEV", "PLUGERR"):
                     # the binding itself fails (transport I/O error): some exception must reach the caller - also when the node is
                     # replaced at that very moment (the command was in flight when the device went away and came back)
@@ -546,7 +558,7 @@ def run_partition(part, tier, seed):
     else:
         mode, tr, first, fst = part
         L = bounds(tier)["history_depth"]
-        alpha = [(c, s) for c in ("tur", "read10", "inquiry") for s in HSTAT] + [("ata", "GOOD"), ("ata", "CC"), ("ata", "ERR"), ("atabad", "-"), ("tur", "ERR"), ("tur", "ENODEV"), ("tur", "PLUGERR"), ("tur", "KBI"), ("ata", "KBI"), ("attach", "GOOD"), ("attach", "CC"), ("attach", "BUSY")]
+        alpha = [(c, s) for c in ("tur", "read10", "inquiry") for s in HSTAT] + [("ata", "GOOD"), ("ata", "CC"), ("ata", "ERR"), ("atabad", "-"), ("tur", "ERR"), ("tur", "ENODEV"), ("tur", "PLUGERR"), ("tur", "KBI"), ("ata", "KBI"), ("attach", "GOOD"), ("attach", "CC"), ("attach", "BUSY"), ("tur", "HOSTERR"), ("read10", "HOSTERR"), ("ata", "HOSTERR")]
         for n in range(1, L + 1):
             for rest in itertools.product(alpha, repeat=n - 1):
                 steps = [(first, fst)] + list(rest)
